@@ -29,7 +29,7 @@ func registerC11() {
 			"files, and chains of 2-3 of them; for every stream EVERY byte offset c in [0, len] x {clean cut, injected non-EOF read error from c on: a private sentinel, io.ErrUnexpectedEOF, io.ErrClosedPipe, os.ErrClosed, and - rotating by offset, all of them at every file boundary - deadline / timeout / cancellation / connection-reset / path errors} x six entry points x " +
 			"{1-byte reads, greedy reads} is executed: c before the entry point's needed prefix => a non-nil error and (Decode, DecodeChained) a partial File holding exactly " +
 			"the messages of the records complete before c; c at or after it => the intact result; at every other offset Decode / DecodeChained run with all options on (second chunker): same error and messages, and the unknown-field / unknown-message lists of the partial File must lie between the model of the complete records and the model including the record in flight; clean EOF exactly on a file boundary of a chain => the files before it and " +
-			"nil; a fault on a boundary => error. The same cuts are also made on disk and read through *os.File (every third offset). Family huge-streams: files of 6 and 9 MiB cut or faulted at offsets beyond 4 MiB (Decode, DecodeChained), same oracle. Family large-streams: model streams of 9-40 KB (several refills of the decoder's 4096-byte buffer) cut/faulted at every offset within 40 bytes of a multiple of 4096, within 64 bytes of either end, and at every 211th offset in between, under 1000-byte and greedy chunkers, same oracle. The fault values rotate through error values of real reader stacks and through errors this library itself returned for empty or cut sources (bare and wrapped), all of them tried at every file boundary. A case is one (stream, offset, kind, entry point, chunker) execution; non-trivial: c lies strictly inside the stream; distinct by construction",
+			"nil; a fault on a boundary => error. The same cuts are also made on disk and read through *os.File (every third offset). Family huge-streams: files of 6 and 9 MiB cut or faulted at offsets beyond 4 MiB (Decode, DecodeChained), same oracle. Family large-streams: model streams of 9-40 KB (several refills of the decoder's 4096-byte buffer) cut/faulted at every offset within 40 bytes of a multiple of 4096, within 64 bytes of either end, and at every 211th offset in between, under 1000-byte and greedy chunkers, same oracle. The fault values rotate through error values of real reader stacks and through errors this library itself returned for empty or cut sources (bare and wrapped), all of them tried at every file boundary, for DecodeChained also through readers offering ReadByte / UnreadByte (bufio.Reader of two sizes, a plain byte scanner). A case is one (stream, offset, kind, entry point, chunker) execution; non-trivial: c lies strictly inside the stream; distinct by construction",
 		Assume:        []string{"partial content is compared on message slots (the file_id of a file whose file_id record is incomplete is not defined)"},
 		MinNontrivial: 5000,
 		Families: []lib.Family{
@@ -359,6 +359,38 @@ func c11Run(c *lib.Ctx, rng *lib.Rand, idx uint64, nfiles int, large bool) {
 			}
 		}
 	}
+	// round 13: the same boundary faults reach DecodeChained through readers that also offer
+	// ReadByte / UnreadByte (and Peek): bufio.Reader of the default size and of 16 bytes, and a
+	// plain byte scanner. Whatever a decoder asks such a reader at a file boundary, an error
+	// other than a clean end of input is not the end of the chain.
+	for bi, bd := range append(append([]int{}, bounds...), len(stream)) {
+		for fi, fe := range c11MoreErrs {
+			r := &lib.Reader{Data: stream, Limit: bd, Fault: true, FaultErr: fe, Ch: lib.Chunker{Kind: "greedy"}}
+			var rd io.Reader
+			kind := ""
+			switch (bi + fi) % 3 {
+			case 0:
+				rd, kind = bufio.NewReader(r), "bufio.Reader"
+			case 1:
+				rd, kind = bufio.NewReaderSize(r, 16), "bufio.Reader (16 bytes)"
+			default:
+				rd, kind = &c11ByteScanner{r: r}, "reader with ReadByte/UnreadByte"
+			}
+			var res lib.CallResult
+			c11WithOpts = false
+			o := lib.Guard(func() { res = lib.Call("DecodeChained", rd) })
+			c.Eval()
+			where := fmt.Sprintf("DecodeChained through a %s, read fault (%v) at offset %d of %d (a file boundary)", kind, fe, bd, len(stream))
+			if o.Panicked || o.Hang {
+				c.Violation(stream, "%s: panicked/hung: %s", where, o.Panic)
+				return
+			}
+			if !c11Judge(c, stream, where, "DecodeChained", bd, true, need["DecodeChained"], res, intact["DecodeChained"], files, bounds) {
+				return
+			}
+			c.Count("boundary_faults_through_byte_scanners", 1)
+		}
+	}
 	// The same cuts with the prefix in a file on disk read through *os.File (a reader that can
 	// also Seek, Stat and ReadAt: whatever a decoder does with that knowledge, a truncated file
 	// is judged like any other truncated stream). Every third offset and the intact stream.
@@ -673,4 +705,51 @@ func (p *peekReader) Discard(n int) (int, error) {
 	}
 	p.pos += n
 	return n, nil
+}
+
+// c11ByteScanner adds ReadByte / UnreadByte to a reader without buffering ahead: a byte is
+// fetched when it is asked for; errors of the source are passed on as they are.
+type c11ByteScanner struct {
+	r       io.Reader
+	last    byte
+	hasLast bool // a byte was read last and can be unread
+	pending bool // last has been unread and is delivered next
+}
+
+func (b *c11ByteScanner) Read(p []byte) (int, error) {
+	if len(p) == 0 {
+		return 0, nil
+	}
+	if b.pending {
+		p[0] = b.last
+		b.pending = false
+		b.hasLast = true
+		return 1, nil
+	}
+	n, err := b.r.Read(p)
+	if n > 0 {
+		b.last, b.hasLast = p[n-1], true
+	}
+	return n, err
+}
+
+func (b *c11ByteScanner) ReadByte() (byte, error) {
+	var one [1]byte
+	for {
+		n, err := b.Read(one[:])
+		if n == 1 {
+			return one[0], nil
+		}
+		if err != nil {
+			return 0, err
+		}
+	}
+}
+
+func (b *c11ByteScanner) UnreadByte() error {
+	if !b.hasLast || b.pending {
+		return fmt.Errorf("c11ByteScanner: nothing to unread")
+	}
+	b.pending, b.hasLast = true, false
+	return nil
 }
